@@ -69,7 +69,7 @@ def mk_instr_cls(cls, kinds, values):
     return cls.from_operands([mk_operand(k, v) for k, v in zip(kinds, values)])
 
 
-def edit_in_place(instr, donor, named: bool = False) -> None:
+def edit_in_place(instr, donor, named: bool = False, nested: bool = False) -> None:
     """Overwrite the operand fields of `instr` with those of `donor` (same class), the way a consumer such as the NV
     transpiler edits instructions it was handed (`instr.line = ...`, `instr.reg0 = ...`)."""
     import dataclasses
@@ -88,8 +88,15 @@ def edit_in_place(instr, donor, named: bool = False) -> None:
                     raise AssertionError(f"{type(instr).__name__}.{name} was set to {want} and reads back {got}")
     for f in dataclasses.fields(instr):
         if f.name not in ("id", "mnemonic", "lineno"):
-            setattr(instr, f.name, getattr(donor, f.name))
-    if named:
+            cur, new = getattr(instr, f.name), getattr(donor, f.name)
+            if nested and type(cur) is type(new) and type(cur).__name__ in ("ArrayEntry", "ArraySlice"):
+                # the array operand object stays, its own fields are rewritten (entry.index = ..., slice.stop = ...): what
+                # the assembler does when it resolves a proto entry's integer index into a register
+                for g in dataclasses.fields(cur):
+                    setattr(cur, g.name, getattr(new, g.name))
+                continue
+            setattr(instr, f.name, new)
+    if named and not nested:
         # ... and once more through the operand's NAMED accessors (instr.ent_results_array = ..., instr.angle_num = ...), which a
         # compiler pass would rather use than reg3 / imm0: each must write the field it reads
         for name in dir(type(instr)):
